@@ -16,6 +16,13 @@ ASSUMPTIONS = ["fractional (float) operands are observed only; F13 (seconds == 6
 class SubTP(Op):
     prop = PROP
     name = "subtp"
+    sibling_rate = 0.12
+
+    def sibling(self, a, rng):
+        pos = rng.choice([1, 2])
+        b = list(a)
+        b[pos] = T.respell(rng, a[0], a[pos])
+        return [tuple(b)]
 
     def gen(self, rng, tier, boost):
         n = 3000 * boost if tier == "quick" else 12000 * boost
